@@ -109,6 +109,7 @@ S('LPRINT', 'LPRINT {0};{1}', 'is')
 S('LPRINT_USING', 'LPRINT USING {0};{1}', 'si', kw=['LPRINT', 'USING'])
 S('LLIST', 'LLIST {0}-{1}', 'll', P, flags=['quick'])
 S('WIDTH', 'WIDTH {0},{1}', 'ii', G)
+S('WIDTH_CURSOR', 'LOCATE {0},{1}:KEY ON:WIDTH 40:WIDTH 80:KEY OFF', 'ii', G, kw=['WIDTH', 'LOCATE', 'KEY'])
 S('WIDTH_DEV', 'WIDTH {0},{1}', 'ni', [F], kw=['WIDTH'])
 S('WIDTH_FILE', 'WIDTH #{0},{1}', 'fi', [F], kw=['WIDTH'])
 S('WIDTH_LPRINT', 'WIDTH LPRINT {0}', 'i', kw=['WIDTH', 'LPRINT'])
@@ -367,6 +368,7 @@ Fn('TIME_FN', 'TIME$', '', kw=['TIME$'])
 Fn('TIMER_FN', 'TIMER', '', kw=['TIMER'])
 Fn('FN_UNDEF', 'FNQ({0})', 'i', kw=['FN'])
 Fn('EXTENSION_FN', '_FOO({0})', 'i', kw=['_'])
+Fn('LITERAL_BLANKS', '&O1 {0}+&H1 {0}+1 {0}+&O 7+& 7', 'i', kw=[])
 Fn('LITERALS', '&H{0}+&O7+&7+1.5D3+1E-40+.1#+1!+1%', 'i', kw=[])
 
 
